@@ -515,6 +515,7 @@ int32_t tls13ExportState(ssl_t *ssl,
         &paramsDataLen);
     if (paramsData == NULL)
     {
+        psDynBufUninit(&buf);
         return PS_MEM_FAIL;
     }
     psDynBufAppendTlsVector(&buf,
